@@ -305,6 +305,16 @@ def ws_triple(f, nm):
     m = re.fullmatch(r"_(\d+)(\.\*)*", buf.get("place", "")) if buf.get("kind") == "place" else None
     if not m:
         return False
+    # the buffer is not written or mutably borrowed again after the built-in filled it
+    after = set()
+    for x in f.succ[o0["call"].bb]:
+        after |= f.reachable(x)
+    for b in after:
+        for s in f.stmts(b):
+            if s["k"] == "=" and (s["p"]["l"] == int(m.group(1)) or
+                                  (s["rv"]["k"] in ("ref", "rawptr") and s["rv"].get("m")
+                                   and s["rv"]["p"]["l"] == int(m.group(1)))):
+                return False
     idx = []
     for op in ops[1:]:
         p = op.get("mv") or op.get("cp")
